@@ -68,6 +68,7 @@ type NativeResult struct {
 	Crash   string `json:"crash,omitempty"` // process died without a result line (panic in another goroutine, fatal error)
 	Timeout bool   `json:"timeout,omitempty"`
 	Err     string `json:"err,omitempty"`
+	Race    string `json:"race,omitempty"` // the Go race detector's first report (binary built with -race)
 }
 
 func (n *NativeResult) summary() string {
@@ -80,6 +81,8 @@ func (n *NativeResult) summary() string {
 		return "CRASH: " + firstLines(n.Crash, 3)
 	case n.AssumeFailed:
 		return "assumption failed natively (model does not follow the path)"
+	case n.Race != "":
+		return "DATA RACE reported by the Go race detector: " + n.Race
 	case n.Panic != "":
 		return "PANIC: " + firstLines(n.Panic, 2) + fmt.Sprintf(" failed=%v", n.Failed)
 	}
@@ -104,8 +107,51 @@ func (n *NativeResult) failedID(id string) bool {
 }
 
 type replayer struct {
-	dir  string
-	bins map[string]string
+	dir      string
+	bins     map[string]string
+	ovPath   string
+	raceBins map[string]string // built lazily with -race, only to confirm race@ counterexamples
+}
+
+// raceBin compiles the native harness of pkg with the Go race detector.
+func (rp *replayer) raceBin(pkg string) (string, error) {
+	if b, ok := rp.raceBins[pkg]; ok {
+		return b, nil
+	}
+	bin := filepath.Join(rp.dir, pkg+".race.test")
+	cmd := exec.Command("go", "test", "-c", "-race", "-tags", "verif", "-vet=off", "-overlay", rp.ovPath, "-o", bin, pkgPathOf(pkg))
+	cmd.Dir = repoDir
+	cmd.Env = append(os.Environ(), "CGO_ENABLED=1")
+	out, err := cmd.CombinedOutput()
+	if err != nil {
+		return "", fmt.Errorf("go test -c -race %s: %v\n%s", pkg, err, out)
+	}
+	if rp.raceBins == nil {
+		rp.raceBins = map[string]string{}
+	}
+	rp.raceBins[pkg] = bin
+	return bin, nil
+}
+
+// runRace runs the model on the -race binary (a few times: which accesses overlap is up to the real scheduler, but
+// the detector reports unordered accesses even when they do not overlap in time).
+func (rp *replayer) runRace(j *Job, raw map[string]string) *NativeResult {
+	m, err := concretize(j, raw)
+	if err != nil {
+		return &NativeResult{Err: err.Error()}
+	}
+	bin, err := rp.raceBin(m.Pkg)
+	if err != nil {
+		return &NativeResult{Err: err.Error()}
+	}
+	var res *NativeResult
+	for try := 0; try < 3; try++ {
+		res = rp.runModelBin(m, bin)
+		if res.Race != "" || res.Err != "" {
+			break
+		}
+	}
+	return res
 }
 
 func goEnv() []string {
@@ -120,6 +166,7 @@ func newReplayer(c *Check, ld *loaded, only map[string]bool) (*replayer, error) 
 		return nil, err
 	}
 	rp := &replayer{dir: dir, bins: map[string]string{}}
+	rp.ovPath = filepath.Join(dir, "overlay.json")
 	ov, pkgs, err := harnessOverlay(c, true)
 	if err != nil {
 		rp.close()
@@ -143,7 +190,7 @@ func newReplayer(c *Check, ld *loaded, only map[string]bool) (*replayer, error) 
 		repl[virt] = real
 	}
 	ovj, _ := json.Marshal(map[string]any{"Replace": repl})
-	ovPath := filepath.Join(dir, "overlay.json")
+	ovPath := rp.ovPath
 	os.WriteFile(ovPath, ovj, 0o644)
 	for _, pkg := range pkgs {
 		if only != nil && !only[pkg] {
@@ -184,6 +231,10 @@ func (rp *replayer) runModel(m *ConcreteModel) *NativeResult {
 	if bin == "" {
 		return &NativeResult{Err: "no native binary for package " + m.Pkg}
 	}
+	return rp.runModelBin(m, bin)
+}
+
+func (rp *replayer) runModelBin(m *ConcreteModel, bin string) *NativeResult {
 	replaySeq++
 	work, err := os.MkdirTemp(rp.dir, "run")
 	if err != nil {
@@ -205,14 +256,20 @@ func (rp *replayer) runModel(m *ConcreteModel) *NativeResult {
 	cmd.Stderr = &out
 	runErr := cmd.Run()
 	res := &NativeResult{}
+	race := ""
+	if i := strings.Index(out.String(), "WARNING: DATA RACE"); i >= 0 {
+		race = raceSummary(out.String()[i:])
+	}
 	for _, line := range strings.Split(out.String(), "\n") {
 		if strings.HasPrefix(line, "VERIF-RESULT ") {
 			if err := json.Unmarshal([]byte(strings.TrimPrefix(line, "VERIF-RESULT ")), res); err != nil {
 				res.Err = "bad result line: " + err.Error()
 			}
+			res.Race = race
 			return res
 		}
 	}
+	res.Race = race
 	if ctx.Err() != nil || strings.Contains(out.String(), "panic: test timed out") {
 		res.Timeout = true
 		res.Crash = tail(out.String(), 30)
@@ -224,6 +281,32 @@ func (rp *replayer) runModel(m *ConcreteModel) *NativeResult {
 	}
 	res.Err = "no result line: " + tail(out.String(), 10)
 	return res
+}
+
+// raceSummary: the two access lines and their top frames from a race detector report
+func raceSummary(rep string) string {
+	var keep []string
+	ls := strings.Split(rep, "\n")
+	for i, l := range ls {
+		t := strings.TrimSpace(l)
+		if strings.HasPrefix(t, "Write at") || strings.HasPrefix(t, "Read at") || strings.HasPrefix(t, "Previous write at") || strings.HasPrefix(t, "Previous read at") {
+			fn := ""
+			if i+1 < len(ls) {
+				fn = strings.TrimSpace(ls[i+1])
+			}
+			if j := strings.Index(t, " at 0x"); j >= 0 {
+				t = t[:j]
+			}
+			keep = append(keep, t+" in "+fn)
+		}
+		if len(keep) == 2 {
+			break
+		}
+	}
+	if len(keep) == 0 {
+		return "DATA RACE"
+	}
+	return strings.Join(keep, "; ")
 }
 
 func tail(s string, n int) string {
@@ -312,6 +395,17 @@ func runReplayCmd(path string) int {
 	}
 	defer rp.close()
 	res := rp.runModel(&m)
+	if strings.HasPrefix(m.Assertion, "race@") {
+		// a data race: the model (and, if it does not force the schedule, the amplified scenario) on a -race build
+		if bin, err := rp.raceBin(m.Pkg); err == nil {
+			res = rp.runModelBin(&m, bin)
+			if res.Race == "" {
+				m2 := m
+				m2.Entry = "VerifRaceStress"
+				res = rp.runModelBin(&m2, bin)
+			}
+		}
+	}
 	out, _ := json.MarshalIndent(res, "", "  ")
 	fmt.Println(string(out))
 	if confirms(res, m.Assertion) {
@@ -328,6 +422,8 @@ func confirms(n *NativeResult, id string) bool {
 		return false
 	}
 	switch {
+	case strings.HasPrefix(id, "race@"):
+		return n.Race != ""
 	case strings.HasPrefix(id, "panic@"):
 		return n.Panic != "" || (n.Crash != "" && !n.Timeout)
 	case strings.HasPrefix(id, "deadlock@"), strings.HasPrefix(id, "unwind@"):
